@@ -134,12 +134,16 @@ theorem changedByFiles_nodes (C : CGraph) (files : List Path) : ∀ t ∈ change
   · simp at h
   · exact (List.mem_filter.mp h).1
 
-/-- With an unlimited level every affected target is reported. -/
+/-- With an unlimited level every affected target that the include/exclude filter lets through is reported — also when
+the target that consumes the file (or whose definition changed) is itself filtered out: the walk starts from ALL
+changed targets, the filter is applied to the result only. -/
 theorem changedTargets_superset (cfg : Cfg) (C : CGraph) (files : List Path) (changed0 : List Nat)
-    (h0 : ∀ t ∈ changed0, t ∈ C.G.nodes) (t : Nat) (ha : Affected C files changed0 t) :
-    t ∈ changedTargets cfg C files changed0 (some none) := by
+    (h0 : ∀ t ∈ changed0, t ∈ C.G.nodes) (t : Nat) (ha : Affected C files changed0 t) (hi : C.incl t = true) :
+    t ∈ changedTargets cfg false C files changed0 (some none) := by
   unfold changedTargets
-  simp only
+  simp only [Bool.false_eq_true, ite_false]
+  apply List.mem_filter.mpr ⟨?_, hi⟩
+  clear hi
   have hroots : ∀ r ∈ changed0 ++ changedByFiles C files, r ∈ C.G.nodes := by
     intro r hr
     rcases List.mem_append.mp hr with hr | hr
@@ -161,5 +165,11 @@ theorem changedTargets_superset (cfg : Cfg) (C : CGraph) (files : List Path) (ch
     · apply List.mem_append_right
       simp only [List.mem_filter, Bool.not_eq_true', List.contains_eq_mem, decide_eq_false_iff_not]
       exact ⟨(findRevdeps_complete_unlimited cfg C.G true _ hroots t hk).2 rfl, hin⟩
+
+/-- nothing the filter excludes is ever reported -/
+theorem changedTargets_included (cfg : Cfg) (sf : Bool) (C : CGraph) (files : List Path) (changed0 : List Nat)
+    (level : Option Limit) (t : Nat) (h : t ∈ changedTargets cfg sf C files changed0 level) : C.incl t = true := by
+  unfold changedTargets at h
+  exact (List.mem_filter.mp h).2
 
 end PlzVerif.Changes
